@@ -322,7 +322,7 @@ class Body:
         """statements without return / loop -> (lines, tr)"""
         lines = []
         for st in stmts:
-            if isinstance(st, ast.Expr) and isinstance(st.value, ast.Constant) or isinstance(st, ast.Pass):
+            if isinstance(st, ast.Expr) and isinstance(st.value, ast.Constant) or isinstance(st, ast.Pass) or is_identity_prologue(st):
                 continue
             if isinstance(st, ast.If):
                 ls, tr = self.cond_update(st, tr, ind)
@@ -417,7 +417,7 @@ class Body:
         s, rest = stmts[0], stmts[1:]
         if isinstance(s, ast.Expr) and isinstance(s.value, ast.Constant):
             return self.run(rest, tr, ind)
-        if isinstance(s, ast.Pass):
+        if isinstance(s, ast.Pass) or is_identity_prologue(s):
             return self.run(rest, tr, ind)
         if isinstance(s, ast.Return):
             if s.value is None:
@@ -442,6 +442,16 @@ class Body:
         if isinstance(value, ast.Tuple):
             return '(' + ', '.join(tr.expr(x) for x in value.elts) + ')'
         return tr.expr(value)
+
+
+def is_identity_prologue(st):
+    """`x = np.asarray(x)` / `x = np.asarray(x, dtype=np.result_type(x, 1.0))`: container / dtype normalisation of a coordinate
+    argument -- the point-wise identity on values (the dtype of the rows is read by separate items)"""
+    if not (isinstance(st, ast.Assign) and len(st.targets) == 1 and isinstance(st.targets[0], ast.Name)):
+        return False
+    nm = st.targets[0].id
+    return ast.unparse(st.value) in (f'np.asarray({nm})', f'np.asarray({nm}, dtype=np.result_type({nm}, 1.0))',
+                                     f'np.asanyarray({nm})', f'np.asarray({nm}, dtype=float)')
 
 
 def _has_return(node):
